@@ -51,6 +51,56 @@ class NamesTop( Component ):
     s.a = Scale( 8, 2 ); s.b = Scale( 8, 2, 8 ); s.c = Scale( 8 ); s.d = Scale( 8, 1, 3 ); s.e = Neg( -1 )
     for i, m in enumerate( [ s.a, s.b, s.c, s.d, s.e ] ):
       m.in_ //= s.in_; s.outs[i] //= m.out
+class QIfc( Interface ):
+  def construct( s ):
+    s.q = [ OutPort( Bits4 ) for _ in range(2) ]; s.v = InPort( Bits1 ); s.g = [ [ InPort( Bits2 ) for _ in range(4) ] for _ in range(2) ]
+class IfcArrTop( Component ):
+  def construct( s ):
+    s.in_ = InPort( Bits4 ); s.dst = [ QIfc() for _ in range(3) ]; s.sum = OutPort( Bits4 )
+    @update
+    def up():
+      for i in range(3):
+        for j in range(2):
+          s.dst[i].q[j] @= s.in_ + i*2 + j
+    @update
+    def up2():
+      s.sum @= s.dst[2].q[1] + zext( s.dst[1].v, 4 ) + zext( s.dst[0].g[1][3], 4 )
+class ArrTop( Component ):
+  def construct( s ):
+    s.in_ = InPort( Bits8 ); s.outs = [ OutPort( Bits8 ) for _ in range(6) ]
+    s.incs = [ Scale( 8, i+1 ) for i in range(4) ]; s.same = [ Scale( 8, 7 ) for _ in range(2) ]
+    for i, m in enumerate( s.incs + s.same ):
+      m.in_ //= s.in_; s.outs[i] //= m.out
+@bitstruct
+class TA:
+  a: Bits3
+@bitstruct
+class TB:
+  b: Bits5
+@bitstruct
+class TC:
+  c: Bits7
+@bitstruct
+class TD:
+  d: Bits2
+def _mk_inner( T, n ):
+  class InnerUser( Component ):
+    def construct( s ):
+      s.in_ = InPort( mk_bits(n) ); s.out = OutPort( mk_bits(n) ); s.w = Wire( T )
+      @update
+      def up_w(): s.w @= s.in_
+      @update
+      def up_o(): s.out @= s.w
+  InnerUser.__name__ = InnerUser.__qualname__ = 'InnerUser_' + T.__name__
+  return InnerUser
+UA = _mk_inner( TA, 3 ); UB = _mk_inner( TB, 5 ); UC = _mk_inner( TC, 7 ); UD = _mk_inner( TD, 2 )
+class TypedefTop( Component ):
+  def construct( s ):
+    s.i3 = InPort( Bits3 ); s.i5 = InPort( Bits5 ); s.i7 = InPort( Bits7 ); s.i2 = InPort( Bits2 )
+    s.o3 = OutPort( Bits3 ); s.o5 = OutPort( Bits5 ); s.o7 = OutPort( Bits7 ); s.o2 = OutPort( Bits2 )
+    s.ua = UA(); s.ub = UB(); s.uc = UC(); s.ud = UD()
+    s.ua.in_ //= s.i3; s.ub.in_ //= s.i5; s.uc.in_ //= s.i7; s.ud.in_ //= s.i2
+    s.o3 //= s.ua.out; s.o5 //= s.ub.out; s.o7 //= s.uc.out; s.o2 //= s.ud.out
 class StructTypesTop( Component ):
   def construct( s ):
     s.in_ = InPort( P ); s.out = OutPort( P )
@@ -126,6 +176,56 @@ def check_portmap(repo):
     for i in range(2):
       for j in range(3):
         if not re.search(rf'assign arr\[{i}\]\[{j}\] = arr__{i}__{j};',text): out.append(f"array port element arr[{i}][{j}] is not connected to the flattened port arr__{i}__{j}")
+    out+=check_flat_arrays(text,'PortMapTop')
+    out+=check_flat_arrays(translate(m.IfcArrTop(),'yosys',d),'IfcArrTop')
+  finally: shutil.rmtree(d,ignore_errors=True)
+  return out
+
+def check_flat_arrays(text,what):
+  """every grouping wire `logic [..] NAME [0:a][0:b]..` of the Yosys text is connected element by element to the flattened ports whose name
+  spells the same path (NAME's identifiers with the indices in between), every index inside the declared dimensions, every element once."""
+  out=[]
+  decl={}
+  for a in re.finditer(r'^\s*logic\s*\[\d+:\d+\]\s+(\w+)((?:\s*\[0:\d+\])+)\s*;',text,re.M):
+    decl[a.group(1)]=[int(x)+1 for x in re.findall(r'\[0:(\d+)\]',a.group(2))]
+  seen={}
+  for a in re.finditer(r'^\s*assign\s+(\w+)((?:\[\d+\])*)\s*=\s*(\w+)((?:\[\d+\])*)\s*;',text,re.M):
+    l,li,r,ri=a.group(1),a.group(2),a.group(3),a.group(4)
+    if li and not ri: wire,idx,flat=l,li,r
+    elif ri and not li: wire,idx,flat=r,ri,l
+    else: continue
+    if wire not in decl: continue
+    ix=[int(x) for x in re.findall(r'\[(\d+)\]',idx)]
+    dims=decl[wire]
+    if len(ix)!=len(dims) or any(i>=d for i,d in zip(ix,dims)):
+      out.append(f"{what}: {a.group(0).strip()} indexes {wire} outside its declared dimensions {dims}"); continue
+    parts=flat.split('__'); names=[p for p in parts if not p.isdigit()]; nums=[int(p) for p in parts if p.isdigit()]
+    if '__'.join(names)!=wire or nums!=ix: out.append(f"{what}: flattened port {flat} is connected to {wire}{idx}, a different element than its name spells")
+    seen.setdefault(wire,[]).append(tuple(ix))
+  import itertools
+  for w,dims in decl.items():
+    if w not in seen: continue
+    allix=set(itertools.product(*[range(d) for d in dims]))
+    if set(seen[w])!=allix or len(seen[w])!=len(allix): out.append(f"{what}: elements of {w}{dims} connected to flattened ports: {sorted(seen[w])} (each element must be connected exactly once)")
+  return out
+
+def check_instances(repo):
+  """C13: in the translated text every sub-component instance instantiates the module generated for *that* component (its own unique name)."""
+  if repo not in sys.path: sys.path.insert(0,repo)
+  m=_load(); out=[]
+  from pymtl3.passes.rtlir import RTLIRType as rt
+  from pymtl3.passes.backends.verilog.util.utility import get_component_unique_name
+  d=tempfile.mkdtemp(prefix='tr',dir=os.path.join(os.path.dirname(os.path.dirname(os.path.abspath(__file__))),'out'))
+  try:
+    for cls in ('ArrTop','NamesTop'):
+      for be in ('verilog','yosys'):
+        top=getattr(m,cls)(); text=translate(top,be,d)
+        insts=dict((i,mn) for mn,i in re.findall(r'^\s*(\w+)\s+(\w+)\s*\(\s*$',text,re.M) if mn!='module')
+        for c in top.get_child_components():
+          nm=get_component_unique_name(rt.RTLIRGetter(cache=False).get_component_ifc_rtlir(c) if hasattr(rt,'RTLIRGetter') else rt.get_component_ifc_rtlir(c))
+          iname=repr(c)[2:].replace('[','__').replace(']','')
+          if iname not in insts: out.append(f"{cls}:{be}: no instantiation named {iname} for component {c!r}"); continue
+          if insts[iname]!=nm: out.append(f"{cls}:{be}: instance {iname} ({c!r}, arguments {c._dsl.args}) instantiates module {insts[iname]} but its own module is {nm}")
   finally: shutil.rmtree(d,ignore_errors=True)
   return out
 
@@ -160,7 +260,7 @@ import tempfile, shutil
 d=tempfile.mkdtemp(prefix='trs',dir={outdir!r})
 try:
   res={{}}
-  for cls in ('StructTypesTop','NamesTop','PortMapTop'):
+  for cls in ('StructTypesTop','NamesTop','PortMapTop','TypedefTop','ArrTop'):
     for be in ('verilog','yosys'):
       try: res[cls+':'+be]=trcheck.translate(getattr(m,cls)(),be,d)
       except Exception as e: res[cls+':'+be]='EXC '+type(e).__name__+': '+str(e)[:200]
